@@ -237,6 +237,8 @@ pub fn without_flushing(m: WriteMode) -> WriteMode {
         m => m,
     }
 }
+pub fn second_dir(dir: &Path) -> PathBuf { let mut d = dir.as_os_str().to_owned(); d.push(".second"); PathBuf::from(d) }
+#[allow(dead_code)]
 struct NullWriter;
 impl LogWriter for NullWriter {
     fn write(&self, _now: &mut DeferredNow, _record: &Record) -> std::io::Result<()> { Ok(()) }
@@ -269,7 +271,14 @@ pub fn logger(dir: &Path, sp: &SpecP, cfg: &CfgP, mode: Option<WriteMode>, errch
     let wm = mode.unwrap_or(match cfg.cap { None => WriteMode::Direct, Some(c) => WriteMode::BufferDontFlushWith(c) });
     // (with rotation and a non-standard builder order the FileSpec leaves the start-time part undecided)
     let fspec = || if rot.is_some() && order > 0 { file_spec_undecided(dir, sp) } else { file_spec(dir, sp) };
-    let to_file = |l: flexi_logger::Logger| if VIA_FW.load(std::sync::atomic::Ordering::SeqCst) { l.log_to_file_and_writer(fspec(), Box::new(NullWriter)) } else { l.log_to_file(fspec()) };
+    // `VIA filewriter`: the second output is a BUFFERING file writer of its own (sibling directory): what
+    // flush()/shutdown()/drop must also deliver
+    let second = || -> Box<dyn LogWriter> {
+        let d2 = second_dir(dir);
+        let _ = std::fs::create_dir_all(&d2);
+        Box::new(FileLogWriter::builder(FileSpec::default().directory(&d2).basename("second").suppress_timestamp()).format(raw_format).write_mode(WriteMode::BufferDontFlushWith(8192)).try_build().expect("second writer"))
+    };
+    let to_file = |l: flexi_logger::Logger| if VIA_FW.load(std::sync::atomic::Ordering::SeqCst) { l.log_to_file_and_writer(fspec(), second()) } else { l.log_to_file(fspec()) };
     match order {
         1 => {
             // rotation, append and write mode are chosen BEFORE the output
@@ -558,6 +567,7 @@ pub struct Hist {
     pub forced: bool,      // a forced rotation happened
     pub forced_at: Vec<usize>, // … after that many accepted records (op ROT)
     pub forced_times: Vec<(usize, u64)>, // … and at which clock reading
+    pub second: Vec<u8>, // VIA filewriter: what the second (buffering) writer of the logger has been handed
     pub unrotatable: bool, // NOTE unrotatable: due rotations cannot succeed (index space exhausted, name too long): only the stream is judged
     pub bounds_always: bool, // no pre-existing files, no restarts: the cleanup limits hold after shutdown whether or not a rotation was observed (BGCLEAN 5)
     pub reopen_mark: Option<(usize, usize)>, // reopen_output() returned after that many records / rotations (cleared by the next external rename/remove, reset, restart)
@@ -595,6 +605,16 @@ fn stamp_in_name(name: &str) -> Option<u64> {
     let s = s.trim_start_matches('_');
     let digits: String = s.chars().skip(1).take(19).filter(|c| c.is_ascii_digit()).collect();
     if digits.len() == 14 && s.as_bytes().get(5) == Some(&b'-') { digits.parse().ok() } else { None }
+}
+
+/// C04 for the second output of `log_to_file_and_writer`: after flush()/shutdown() has returned, the
+/// second (buffering) writer's file holds every record handed to the logger
+fn check_second(ctx: &mut Ctx, case_id: &str, li: usize, dir: &Path, h: &Hist, has_logger: bool, what: &str) {
+    if !has_logger || !VIA_FW.load(std::sync::atomic::Ordering::SeqCst) || h.second.is_empty() { return; }
+    let got = std::fs::read(second_dir(dir).join("second.log")).unwrap_or_default();
+    if got != h.second {
+        ctx.report.fail(case_id, "second-writer-incomplete", &format!("line {li}: {what} has returned; the additional writer of log_to_file_and_writer holds {} of {} bytes", got.len(), h.second.len()));
+    }
 }
 
 fn oracles(ctx: &mut Ctx, case_id: &str, li: usize, f: &Flw, h: &Hist, at_sync_point: bool) {
@@ -978,6 +998,7 @@ fn execute_inner(ctx: &mut Ctx, lines: &[String]) -> Vec<String> {
     let dir = fixed_dir.clone().unwrap_or_else(|| ctx.work.join(format!("case-{}-{}", std::process::id(), ctx.case_no)));
     if fixed_dir.is_none() {
         let _ = std::fs::remove_dir_all(&dir);
+        let _ = std::fs::remove_dir_all(second_dir(&dir));
         std::fs::create_dir_all(&dir).unwrap();
         flexi_logger::verif_hooks::clear_creation_table();
         flexi_logger::verif_hooks::set_virtual_now(Some(stamp_to_local(20200101000000)));
@@ -1133,6 +1154,7 @@ fn execute_inner(ctx: &mut Ctx, lines: &[String]) -> Vec<String> {
                 let ev = ech.new_events();
                 // no fault is injected in these histories: every record whose log call returned counts
                 h.recs.push((bytes.clone(), now));
+                if VIA_FW.load(std::sync::atomic::Ordering::SeqCst) { h.second.extend_from_slice(&bytes); }
                 if buffered { h.unflushed = true; }
                 if ev.is_empty() || is_async { "ok".into() } else { "err".into() }
             }
@@ -1157,12 +1179,14 @@ fn execute_inner(ctx: &mut Ctx, lines: &[String]) -> Vec<String> {
                 // alternately `LoggerHandle::flush` and the log facade's `Log::flush` of the boxed logger
                 if let Some((lg, hs)) = &f.lg { if li % 2 == 0 { hs[0].flush(); } else { ctx.report.count("op.LFLUSH.log-facade"); lg.flush(); } }
                 if !is_async { h.unflushed = false; }
+                check_second(ctx, &case_id, li, &dir, &h, f.lg.is_some(), "flush()");
                 "ok".into()
             }
             ["LSHUT"] => {
                 ctx.report.count("op.LSHUT");
                 if let Some((_, hs)) = &f.lg { hs[0].shutdown(); }
                 h.unflushed = false;
+                check_second(ctx, &case_id, li, &dir, &h, f.lg.is_some(), "shutdown()");
                 "ok".into()
             }
             // two shutdown() calls that overlap in time (two threads on the same handle); the writer
@@ -1778,7 +1802,7 @@ fn execute_inner(ctx: &mut Ctx, lines: &[String]) -> Vec<String> {
         flexi_logger::verif_hooks::set_virtual_now(Some(stamp_to_local(20200101000000)));
         if !lines.iter().any(|l| l.starts_with("KW ")) { dump_creation_table(&c.dir, &c.side); }
     }
-    if !in_child && std::env::var_os("FVH_KEEP").is_none() { let _ = std::fs::remove_dir_all(&dir); }
+    if !in_child && std::env::var_os("FVH_KEEP").is_none() { let _ = std::fs::remove_dir_all(&dir); let _ = std::fs::remove_dir_all(second_dir(&dir)); }
     if h.rotations > 0 || h.restarts > 0 || (f_via_logger && h.recs.len() > 1) {
         ctx.report.nontrivial_case(lines);
     }
